@@ -177,10 +177,17 @@ def api_option_models(fs):
             out.append(dict(base, title=t))
         out.append(dict(base, assign_after=True))
         out.append(dict(base, numpy_returns=True))
+        out.append(dict(base, guarded=True))
+        out.append(dict(base, list_sink=True))
+        for hc in (0.5, 0.8, 1.0, 1.25):
+            out.append(dict(base, header_cutoff=hc))
         if fs:
             allp = ['%s->%s' % (a, b) for a in els for b in els]
             out.append(dict(base, dens=allp, lazy_mapping=True))
             out.append(dict(base, dens=allp[1:], lazy_mapping=True))
+            out.append(dict(base, dens=allp, lazy_mapping='missing'))
+            out.append(dict(base, dens=allp[1:], lazy_mapping='missing'))
+            out.append(dict(base, dens=allp, dict_filled_later=True))
     return out
 
 
@@ -271,14 +278,12 @@ def eam_ini(m, target, sep=' : '):
         out.append('%s-%s%s%s' % (a, b, sep, X.render_defn(pair_defn(a, b))))
     out.append('')
     if 'dip' in m:
-        out.append('[EAM-ADP-Dipole]')
-        for a, b in m['dip']:
-            out.append('%s-%s%s%s' % (a, b, sep, X.render_defn(dip_defn(a, b))))
-        out.append('')
-        out.append('[EAM-ADP-Quadrupole]')
-        for a, b in m['quad']:
-            out.append('%s-%s%s%s' % (a, b, sep, X.render_defn(quad_defn(a, b))))
-        out.append('')
+        dsec = ['[EAM-ADP-Dipole]'] + ['%s-%s%s%s' % (a, b, sep, X.render_defn(dip_defn(a, b))) for a, b in m['dip']] + ['']
+        qsec = ['[EAM-ADP-Quadrupole]'] + ['%s-%s%s%s' % (a, b, sep, X.render_defn(quad_defn(a, b))) for a, b in m['quad']] + ['']
+        if m.get('adp_order') == 'quad-first':
+            out = qsec + out + dsec            # the quadrupole section leads the file, the dipole section ends it
+        else:
+            out += dsec + qsec
     return '\n'.join(out) + '\n'
 
 
@@ -295,6 +300,29 @@ def big_grid_models(fs):
         out.append(dict(fs=fs, embed=list(els), dens=dens, pairs=[list(p) for p in orient(up[::2], 2)], species='builtin',
                         nr=nr, cutoff=6.5, nrho=nrho, cutoff_rho=100.0))
     return out
+
+
+class ListSink(list):
+    """a minimal file-like sink: a list of the chunks written (empty, hence falsy, until something is written)"""
+    write = list.append
+
+    def getvalue(self):
+        return ''.join(self)
+
+
+class MissingDensities(dict):
+    """a dict whose entries come into being on first look-up (a defaultdict-style mixing rule with a NON-zero default)"""
+    def __init__(self, el, others, m, api_defn):
+        dict.__init__(self)
+        self.el, self.others, self.m, self.api_defn = el, list(others), m, api_defn
+
+    def __missing__(self, b):
+        if b not in self.others:
+            raise KeyError(b)
+        from atsim.potentials import potentialforms as pf
+        f = self.api_defn(dens_fs_defn(self.el, b)) if ('%s->%s' % (self.el, b)) in self.m['dens'] else pf.zero()
+        self[b] = f
+        return f
 
 
 class LazyDensities(collections.abc.Mapping):
@@ -323,7 +351,20 @@ def api_objects(m, order=None):
     from atsim.potentials import potentialforms as pf
     els = order or model_elements(m)
     eam = []
+    later = []
     api_defn = R.api_defn
+    if m.get('guarded'):
+        # functions written with python-float semantics in mind: the singular term is guarded by try/except ZeroDivisionError
+        def api_defn(d):   # noqa
+            f = R.api_defn(d)
+
+            def g(x):
+                try:
+                    extra = 1e-3 / x - 1e-3 / x
+                except ZeroDivisionError:
+                    extra = 0.0
+                return f(x) + extra
+            return g
     if m.get('numpy_returns'):
         # callables built on numpy / scipy (interp1d ...) return 0-d arrays
         import numpy
@@ -334,7 +375,9 @@ def api_objects(m, order=None):
     for el in els:
         Z, mass, a, lat = ref_meta(m, el, 'api')
         emb = api_defn(embed_defn(el)) if el in m['embed'] else pf.zero()
-        if m['fs'] and m.get('lazy_mapping'):
+        if m['fs'] and m.get('lazy_mapping') == 'missing':
+            dens = MissingDensities(el, [b for b in els], m, api_defn)
+        elif m['fs'] and m.get('lazy_mapping'):
             dens = LazyDensities(el, [b for b in els], m, api_defn)
         elif m['fs']:
             dens = {}
@@ -353,7 +396,17 @@ def api_objects(m, order=None):
             e.electronDensityFunction = dens
             eam.append(e)
             continue
+        if m['fs'] and m.get('dict_filled_later') and isinstance(dens, dict):
+            # the caller keeps its dictionary and fills / replaces entries after the EAMPotential objects exist (a fitting loop)
+            final = dict(dens)
+            for b in list(dens):
+                dens[b] = pf.constant(3.0)
+            eam.append(ap.EAMPotential(el, Z, mass, emb, dens, a, lat))
+            later.append((dens, final))
+            continue
         eam.append(ap.EAMPotential(el, Z, mass, emb, dens, a, lat))
+    for dens, final in later:
+        dens.update(final)
     pots = [ap.Potential(a, b, api_defn(pair_defn(a, b))) for a, b in all_pairs(m)]
     dip = [ap.Potential(a, b, R.api_defn(dip_defn(a, b))) for a, b in m.get('dip', [])]
     quad = [ap.Potential(a, b, R.api_defn(quad_defn(a, b))) for a, b in m.get('quad', [])]
@@ -374,7 +427,7 @@ def produce(m, target, route, spelling=None):
     binary = target.startswith('excel')
     if route in ('cls', 'proc'):
         pots, eam, dip, quad = api_objects(m)
-        fp = io.BytesIO() if binary else io.StringIO()
+        fp = io.BytesIO() if binary else (ListSink() if m.get('list_sink') else io.StringIO())
         if route == 'cls' or target not in PROC:
             cls = getattr(ET, CLS[target])
             if target == 'eam_adp':
@@ -390,6 +443,8 @@ def produce(m, target, route, spelling=None):
                 kw['comments'] = tuple(m['comments']) if m.get('comments_tuple') else list(m['comments'])
             if 'title' in m and target.startswith('DL_POLY'):
                 kw['title'] = m['title']
+            if 'header_cutoff' in m and target.startswith('setfl'):
+                kw['cutoff'] = m['header_cutoff'] * m['cutoff']          # the cutoff= option only sets the 5th header number
             getattr(ap, PROC[target])(m['nrho'], drho, m['nr'], dr, eam, pots, fp, **kw)
         return fp.getvalue()
     ini = eam_ini(m, spelling or target)
